@@ -363,14 +363,25 @@ func execCache(id string, s *ev.Shard, root string, c CacheCase) *rp.Fail {
 					return
 				}
 				for _, w := range sp.Writes {
-					for _, l := range sp.Files {
-						if l == w.File && cur[w.File].exists && cur[w.File].content != w.Content {
-							selfModified[name] = true
+					// the file itself and every link that leads to it
+					written := []string{w.File}
+					for ln, target := range c.Links {
+						if target == w.File {
+							written = append(written, ln)
+						} else if strings.HasPrefix(w.File, target+"/") {
+							written = append(written, ln+strings.TrimPrefix(w.File, target)) // below a linked directory
 						}
 					}
-					for _, g := range sp.Globs {
-						if model.Match(g, w.File) && cur[w.File].exists && cur[w.File].content != w.Content {
-							selfModified[name] = true
+					for _, wf := range written {
+						for _, l := range sp.Files {
+							if l == wf && cur[w.File].exists && cur[w.File].content != w.Content {
+								selfModified[name] = true
+							}
+						}
+						for _, g := range sp.Globs {
+							if model.Match(g, wf) && cur[w.File].exists && cur[w.File].content != w.Content {
+								selfModified[name] = true
+							}
 						}
 					}
 					// only the content of existing files is rewritten: which files a glob denotes is
@@ -489,6 +500,10 @@ func execCache(id string, s *ev.Shard, root string, c CacheCase) *rp.Fail {
 						return &rp.Fail{Sig: "needless-rerun", Size: size, Msg: fmt.Sprintf("%s: task %s ran again although its dependency files are exactly those of its last successful completion and the cache was not removed", where, t.Name)}
 					}
 				}
+			}
+			if id == "C14" && st.Force && rr.err != nil && len(st.Fail) == 0 && len(st.Abort) == 0 {
+				// nothing was made to fail: whatever the files and the cache look like, a forced run runs
+				return &rp.Fail{Sig: "forced-run-refused", Size: size, Msg: fmt.Sprintf("%s: the forced run stopped with an error although no command failed: %v", where, rr.err)}
 			}
 			if id == "C14" && st.Force && rr.err == nil && len(st.Fail) == 0 {
 				for _, name := range st.Tasks {
